@@ -1283,6 +1283,12 @@ func ruleR33(c *Ctx) {
 							}
 						}
 					}
+					if !ok {
+						// a parameter of the declared function: every static call site passes a freshly generated id
+						if ok2, why2 := idFromCallers(p, f, rhs, isGenNew, 0); ok2 {
+							ok, why = true, why2
+						}
+					}
 					c.Check(ok, f, x, "assignment to "+fieldName(in, l), "an id stored into a flow/instance originates from IGenerator.New() (a copied or reused id makes two flows indistinguishable)", why)
 				}
 			}
@@ -1498,6 +1504,85 @@ func writtenPkgVars(p *Prog) map[*types.Var]bool {
 	}
 	writtenPkgVarsCache[p] = m
 	return m
+}
+
+// idFromCallers: e is a parameter of f's declared root and at every static call site the argument is New() or a
+// local defined only by New() (or, one level up, again such a parameter).
+func idFromCallers(p *Prog, f *FuncInfo, e ast.Expr, isGenNew func(*types.Info, ast.Expr) bool, depth int) (bool, string) {
+	if depth > 2 {
+		return false, ""
+	}
+	in := info(f)
+	id, ok := unparen(e).(*ast.Ident)
+	if !ok {
+		return false, ""
+	}
+	v, ok := objOf(in, id).(*types.Var)
+	root := f.Root()
+	if !ok || root.Obj == nil || !isParam(root, v) {
+		return false, ""
+	}
+	sig := root.Obj.Type().(*types.Signature)
+	idx := -1
+	for i := 0; i < sig.Params().Len(); i++ {
+		if sig.Params().At(i) == v {
+			idx = i
+		}
+	}
+	if idx < 0 {
+		return false, ""
+	}
+	sites, good := 0, 0
+	for _, h := range p.Funcs {
+		if h.Body == nil || h.Pkg != root.Pkg {
+			continue
+		}
+		hin := info(h)
+		inspectNoLit(h.Body, func(m ast.Node) bool {
+			cl, ok := m.(*ast.CallExpr)
+			if !ok || callee(hin, cl) != root.Obj || idx >= len(cl.Args) {
+				return true
+			}
+			sites++
+			a := cl.Args[idx]
+			if isGenNew(hin, a) {
+				good++
+				return true
+			}
+			if aid, ok := unparen(a).(*ast.Ident); ok {
+				if av, ok := objOf(hin, aid).(*types.Var); ok && !av.IsField() {
+					defs, fresh := 0, 0
+					hr := h.Root()
+					hrin := info(hr)
+					ast.Inspect(hr.Body, func(z ast.Node) bool {
+						if a2, ok := z.(*ast.AssignStmt); ok {
+							for j, l2 := range a2.Lhs {
+								if lid, ok := l2.(*ast.Ident); ok && objOf(hrin, lid) == types.Object(av) && j < len(a2.Rhs) {
+									defs++
+									if isGenNew(hrin, a2.Rhs[j]) {
+										fresh++
+									}
+								}
+							}
+						}
+						return true
+					})
+					if defs > 0 && defs == fresh {
+						good++
+						return true
+					}
+				}
+			}
+			if ok2, _ := idFromCallers(p, h, a, isGenNew, depth+1); ok2 {
+				good++
+			}
+			return true
+		})
+	}
+	if sites > 0 && sites == good {
+		return true, fmt.Sprintf("parameter %s: all %d call sites of %s pass an id defined only by IGenerator.New()", v.Name(), sites, root.QName())
+	}
+	return false, ""
 }
 
 // withSamePkgCallees returns f and the declared functions of f's package that it calls (transitively, depth-bounded).
